@@ -24,10 +24,10 @@ import (
 
 // ---- what an executor reads from the chains ----
 type L1DepEvent struct {
-	Bridge, Seq, Height         uint64
-	From, To, L1Denom, L2Denom  string
-	Amt                         *big.Int
-	Data                        []byte
+	Bridge, Seq, Height        uint64
+	From, To, L1Denom, L2Denom string
+	Amt                        *big.Int
+	Data                       []byte
 }
 
 func parseL1DepositEvents(evs sdk.Events, height uint64) []L1DepEvent {
@@ -77,7 +77,7 @@ var c04DenomShapes = []string{
 	"Z9/:._-",
 	"factory/init1qyqszqgpqyqszqgpqyqszqgpqyqszqgpz4ssx/sub.token-1",
 	"l2/0a1b2c3d4e5f60718293a4b5c6d7e8f90a1b2c3d4e5f60718293a4b5c6d7e8f9", // a base denom that looks like an L2 denom
-	"x" + strings.Repeat("y0", 63) + "z", // maximum length 128
+	"x" + strings.Repeat("y0", 63) + "z",                                  // maximum length 128
 	"uusdc",
 }
 
@@ -656,7 +656,11 @@ func genC04(seed uint64, tier string, outdir string) *Report {
 	}
 	rep.Exhaustive = true
 	rep.Notes = append(rep.Notes, fmt.Sprintf("every tree size 1..%d, every position claimed (and re-submitted); boundary amounts 1, 2^63-1, 2^63, 2^64-1 claimed; 2^64, 2^64+1, 2^128, -1 rejected at both entry points", maxN))
-	writeShards(outdir, "C04", c04CaseHeader, "run_c04case", "c04case", texts1, 8, rep)
+	nsh := 8
+	if tier == "thorough" { // the per-shard coqc timeout of the checker is 1700 s
+		nsh = 14
+	}
+	writeShards(outdir, "C04", c04CaseHeader, "run_c04case", "c04case", texts1, nsh, rep)
 	writeShards(outdir, "C04L2", l2CaseHeader, "run_l2case", "l2case", texts2, 2, rep)
 	return rep
 }
